@@ -1,0 +1,17 @@
+//go:build verif
+
+package message
+
+import "sync/atomic"
+
+// VerifSetPacketCounter sets the process-wide counter from which automatic
+// packet identifiers are derived. Verification hook (build tag verif); not
+// part of the library API.
+func VerifSetPacketCounter(v uint64) {
+	atomic.StoreUint64(&gPacketID, v)
+}
+
+// VerifPacketCounter returns the current value of that counter.
+func VerifPacketCounter() uint64 {
+	return atomic.LoadUint64(&gPacketID)
+}
